@@ -41,7 +41,12 @@ func (pid *PeerID) UnmarshalText(data []byte) error {
 	if len(data) != enc.EncodedLen(len(pid)) {
 		return errors.New("data is wrong length")
 	}
-	enc.Decode(pid[:], data)
+	// decode into a copy: text that is not a valid encoding is an error and leaves pid unchanged
+	var tmp PeerID
+	if _, err := enc.Decode(tmp[:], data); err != nil {
+		return err
+	}
+	*pid = tmp
 	return nil
 }
 
